@@ -20,5 +20,7 @@ pub fn check(c: bool, why: &'static str) -> Result<(), &'static str> {
     }
 }
 
+pub mod c08;
 pub mod c09;
+pub mod c10;
 pub mod c11;
